@@ -43,8 +43,12 @@ def resolve(s, L, depth=0):
     def rep_alias(m):
         w = m.group(1)
         # a local that merely names a member path (const struct reb_vec3d boxsize = r->boxsize): boxsize.y -> r.boxsize.y
-        if w in L and w != 'r' and re.match(r'^[A-Za-z_][\w.]*$', L[w].strip('()')):
-            return L[w].strip('()') + '.'
+        tgt = L.get(w, '').replace(' ', '')
+        tgt = tgt.strip('()')
+        if tgt.startswith('&'):
+            tgt = tgt[1:].strip('()')          # pointer to a member (ri = &(r->ri_whfast)): ri->x is r.ri_whfast.x
+        if w in L and w != 'r' and re.match(r'^[A-Za-z_][\w.]*$', tgt):
+            return tgt + '.'
         return m.group(0)
     return re.sub(r'(?<![\w.])([A-Za-z_]\w*)\.(?=[A-Za-z_])', rep_alias, s)
 
